@@ -705,6 +705,7 @@ impl<'i, I: Interner> DisplayUnsat<'i, I> {
                 (
                     DisplayOp::Requirement(version_set_id, edges),
                     indenter.push_level(),
+                    Rc::new(Vec::<NodeIndex>::new()),
                 )
             })
             .collect::<Vec<_>>();
@@ -714,7 +715,9 @@ impl<'i, I: Interner> DisplayUnsat<'i, I> {
             stack[0].1.set_last();
         }
 
-        while let Some((node, indenter)) = stack.pop() {
+        // The third element of every entry holds the candidates that are currently being
+        // expanded (the path from the top-level to the entry). It is used to cut cycles.
+        while let Some((node, indenter, path)) = stack.pop() {
             let top_level = indenter.is_at_top_level();
             let indent = indenter.get_indent();
 
@@ -762,6 +765,7 @@ impl<'i, I: Interner> DisplayUnsat<'i, I> {
                                 (
                                     DisplayOp::Candidate(graph.edge_endpoints(e).unwrap().1),
                                     indenter.push_level(),
+                                    path.clone(),
                                 )
                             })
                             .collect();
@@ -770,7 +774,7 @@ impl<'i, I: Interner> DisplayUnsat<'i, I> {
                         let mut deduplicated_children = Vec::new();
                         let mut merged_and_seen = HashSet::new();
                         for child in children {
-                            let (DisplayOp::Candidate(child_node), _) = child else {
+                            let (DisplayOp::Candidate(child_node), _, _) = child else {
                                 unreachable!()
                             };
                             let solvable_id = graph[child_node].solvable_or_root();
@@ -818,6 +822,7 @@ impl<'i, I: Interner> DisplayUnsat<'i, I> {
                                 (
                                     DisplayOp::Candidate(graph.edge_endpoints(e).unwrap().1),
                                     indenter.push_level(),
+                                    path.clone(),
                                 )
                             })
                             .collect();
@@ -826,7 +831,7 @@ impl<'i, I: Interner> DisplayUnsat<'i, I> {
                         let mut deduplicated_children = Vec::new();
                         let mut merged_and_seen = HashSet::new();
                         for child in children {
-                            let (DisplayOp::Candidate(child_node), _) = child else {
+                            let (DisplayOp::Candidate(child_node), _, _) = child else {
                                 unreachable!()
                             };
                             let Some(solvable_id) = graph[child_node].solvable() else {
@@ -899,7 +904,14 @@ impl<'i, I: Interner> DisplayUnsat<'i, I> {
                     });
                     let is_leaf = graph.edges(candidate).next().is_none();
 
-                    if let Some(excluded_reason) = excluded {
+                    if path.contains(&candidate) {
+                        // The candidate (transitively) depends on itself, it has already
+                        // been expanded further up in the tree.
+                        writeln!(
+                            f,
+                            "{indent}{version}, which is already reported above."
+                        )?;
+                    } else if let Some(excluded_reason) = excluded {
                         writeln!(
                             f,
                             "{indent}{version} is excluded because {reason}",
@@ -944,6 +956,9 @@ impl<'i, I: Interner> DisplayUnsat<'i, I> {
                         }
                     } else {
                         writeln!(f, "{indent}{version} would require",)?;
+                        let mut child_path = path.as_ref().clone();
+                        child_path.push(candidate);
+                        let child_path = Rc::new(child_path);
                         let mut requirements = graph
                             .edges(candidate)
                             .chunk_by(|e| e.weight().requires())
@@ -962,6 +977,7 @@ impl<'i, I: Interner> DisplayUnsat<'i, I> {
                                 (
                                     DisplayOp::Requirement(version_set_id, edges),
                                     indenter.push_level(),
+                                    child_path.clone(),
                                 )
                             })
                             .collect::<Vec<_>>();
